@@ -80,6 +80,11 @@ func parkChild() {
 		case st == "settle":
 			time.Sleep(40 * time.Millisecond)
 		case strings.HasPrefix(st, "chk"):
+			// a goroutine that was told to stop needs the scheduler to get there: wait (up to 3 s) for the expected count
+			// before looking; what is still wrong then is wrong
+			for deadline := time.Now().Add(3 * time.Second); spawned.Load()-exited.Load() != int64(st[3]-'0') && time.Now().Before(deadline); {
+				time.Sleep(time.Millisecond)
+			}
 			enc.Encode(parkObs{Step: i, Alive: spawned.Load() - exited.Load(), Armed: mjml.VerifCleanerArmed(), Want: int64(st[3] - '0'), Started: spawned.Load() - atStop})
 		}
 	}
